@@ -263,6 +263,88 @@ def gen_cases(ctx, tier):
     return cases
 
 
+# --------------------------------------------------------------------------
+# monitor-only BIG cases: many more fibers than the model's 32 (harness ops 11 = spawn a further fibers, 12 = a yields
+# in a row with one event `t 5001 919 id` per hand-out); judged by monitor_big only, never compared with the model
+# --------------------------------------------------------------------------
+BIG_SIZES = (40, 100, 130, 200, 300, 600, 1030)
+SPAWN_MANY, YIELD_MANY = 11, 12
+
+
+def big_cases():
+    """N ready fibers on kernel thread 0, one scheduler-loop iteration, then 4N yields (whoever runs yields); once alone,
+    once with a second kernel thread that has nothing to do.  N spans the sizes at which a length- or
+    count-dependent shortcut in fiber_scheduler_next could switch on."""
+    cases = []
+    for n in BIG_SIZES:
+        p0 = [(SPAWN_MANY, n), (IDLE, 0), (YIELD_MANY, 4 * n)]
+        cases.append(core.fmt_case([100 * n + 1000, TARGET], [p0], []))
+        cases.append(core.fmt_case([100 * n + 1000, TARGET], [p0, []], []))
+    return cases
+
+
+def monitor_big(case, tr, raw):
+    """the C10 clause only: every ready fiber is handed out again within 2(n-1) hand-outs of other fibers (n = number
+    of ready fibers), and conservation: only existing fibers are handed out, nobody twice without yielding in between"""
+    if tr is None:
+        return "implementation produced no trace: %s" % (raw or "")[:80]
+    _, progs = parse_case(case)
+    n = sum(a for (o, a) in progs[0] if o == SPAWN_MANY)
+    ids = set(range(33, 33 + n))
+    handed = []
+    first = None
+    opi = 0
+    for (t, loc, kind, val) in tr:
+        if kind == 919 and loc == 0 and val in (7, 8):
+            return "thread %d never finished" % t
+        if t != 0:
+            continue
+        if kind == 909:
+            opi += 1
+            if opi == 2:            # the scheduler-loop iteration returns the first fiber handed out
+                first = val
+        if loc == 5001 and kind == 919:
+            handed.append(val)
+    if first not in ids:
+        return "the scheduler loop found no fiber to run although %d are ready (returned %r)" % (n, first)
+    seq = [first] + handed
+    expect = sum(a for (o, a) in progs[0] if o == YIELD_MANY)
+    if len(handed) != expect:
+        return "%d yields handed out only %d fibers although %d fibers are ready" % (expect, len(handed), n)
+    bound = 2 * (n - 1)
+    last = {}           # fiber -> position of its last hand-out; it is ready again from the following hand-out on
+    m = len(seq) - 1
+    for i, h in enumerate(seq):
+        if h not in ids:
+            return "next() handed out %r, which is not one of the %d fibers" % (h, n)
+        if i and h == seq[i - 1]:
+            return "fiber %d was handed out twice in a row (it was running, not queued)" % h
+        byp = i - last[h] - 2 if h in last else i
+        if byp > bound:
+            return ("fiber %d was ready and was bypassed %d times before it ran again (n = %d ready fibers, "
+                    "bound 2(n-1) = %d)" % (h, byp, n, bound))
+        last[h] = i
+    for g in sorted(ids):
+        pend = m - last[g] - 1 if g in last else m + 1
+        if pend > bound:
+            return ("fiber %d is ready and has been bypassed %d times, fibers keep being handed out around it "
+                    "(n = %d ready fibers, bound 2(n-1) = %d)" % (g, pend, n, bound))
+    return None
+
+
+def run_big(ctx, exe):
+    cases = big_cases()
+    impl = core.run_sharded([exe], cases, timeout=900)
+    bad = 0
+    for c, line in zip(cases, impl):
+        why = core.safe_monitor(monitor_big, c, core.parse_trace(line) if line is not None else None, line)
+        if why:
+            bad += 1
+            if bad <= 3:
+                core.report_violation(ctx, "sched-big", c, why, (line or "")[:4000])
+    return len(cases), bad
+
+
 def build(ctx):
     return core.build_harness(ctx, "h_sched", "h_sched.c", repo_sources=SOURCES)
 
@@ -289,6 +371,11 @@ def run(ctx):
                                      "all generated cases are distinct programs with at least two fibers"})
         if (not ok or ctx.failures) and not ctx.violations:
             search(ctx, exe)
+        elif not ctx.violations:
+            nb, bad = run_big(ctx, exe)      # cheap (about 1 s): in both tiers
+            ctx.oblige("monitor:sched-big(%d runs)" % nb, bad == 0,
+                       "%d runs with 40..1030 ready fibers judged a violation" % bad)
+            ctx.coverage["sched_big_runs"] = nb
     core.init_contract(ctx, ["fiber_scheduler_wsd"])
     core.finish(ctx, extra_assumptions=ASSUME)
 
@@ -307,6 +394,8 @@ def search(ctx, exe):
             core.report_violation(ctx, "sched+catchall", c, why, line)
             if len(ctx.violations) >= 3:
                 break
+    if not ctx.violations:
+        run_big(ctx, exe)
 
 
 def replay(ctx, payload):
@@ -317,6 +406,12 @@ def replay(ctx, payload):
     if not exe or not c:
         print("nothing to replay (no concrete case in this file)")
         return 2
+    if payload.get("harness") == "sched-big":
+        impl = core.run_sharded([exe], [c], timeout=900)[0]
+        why = core.safe_monitor(monitor_big, c, core.parse_trace(impl) if impl is not None else None, impl)
+        print("case:  %s\nimpl (hand-out events only shown):  %s\nmonitor: %s" %
+              (c, " ".join(str(e[3]) for e in (core.parse_trace(impl) or []) if e[1] == 5001)[:3000], why or "ok"))
+        return 1 if why else 0
     if str(payload.get("harness", "")).endswith("+catchall"):
         impl = core.run_sharded(["env", "RT_CATCHALL=1", exe], [c])[0]
         why = core.safe_monitor(monitor, c, core.parse_trace(impl) if impl is not None else None, impl)
